@@ -62,3 +62,5 @@ func C14Type(depth int, fullPrims int) {
 	verifAssert("matlab-plan", m == want)
 	verifReach("c14-type-end")
 }
+
+func (g *gen) pyExpr(t dsl.Type) string { return pybinary.VerifTypeSerializer(t, NS) }
